@@ -183,7 +183,7 @@ impl Property for C16 {
         stats.class("config:insert-order");
         // separate processes
         let want = hash_dump(&base);
-        let file = std::path::Path::new(VERIF_ROOT).join("work").join("C16").join(format!("child-{}.json", std::process::id()));
+        let file = std::path::Path::new(VERIF_ROOT.as_str()).join("work").join("C16").join(format!("child-{}.json", std::process::id()));
         let _ = std::fs::create_dir_all(file.parent().unwrap());
         std::fs::write(&file, serde_json::to_vec(&json!({"case": case})).unwrap()).expect("write case");
         let exe = std::env::current_exe().expect("exe");
